@@ -176,8 +176,9 @@ def verify_full(M):
             elif order == "id,sig,extra":
                 items.append((T_METHOD, b"\x00"))
             ct = be.encrypt(k_adv, b"PV-Msg02", be.b(tlv8_encode(items)))
-        fields = [(T_STATE, b"\x02")] + ([(T_PUBKEY, pk)] if pk is not None else []) + ([(T_ENC, ct)] if ct is not None else [])
-        genuine = pk is not None and ct is not None and decide(eq(be, pk, pub)) and decide(eq(be, ct, enc))
+        m2_state = ex.choice("m2_state", ["2", "2-then-another-byte"]) if (pk_sel, ct_sel) == ("honest", "honest") else "2"
+        fields = [(T_STATE, b"\x02" if m2_state == "2" else b"\x02\x00")] + ([(T_PUBKEY, pk)] if pk is not None else []) + ([(T_ENC, ct)] if ct is not None else [])
+        genuine = m2_state == "2" and pk is not None and ct is not None and decide(eq(be, pk, pub)) and decide(eq(be, ct, enc))
         try:
             req, expected = send(M, be, gen, fields, expected)
         except StopIteration:
@@ -195,7 +196,10 @@ def verify_full(M):
         m4 = ex.choice("m4", M4S)
         m4_fields = {"state4": [(T_STATE, b"\x04")], "state4+error": [(T_STATE, b"\x04"), (T_ERROR, be.arbitrary("m4err", 1))],
                      "state4+empty-error": [(T_STATE, b"\x04"), (T_ERROR, b"")], "error-only": [(T_ERROR, b"\x02")],
-                     "wrong-state": [(T_STATE, b"\x02")], "empty-state": [(T_STATE, b"")]}[m4]
+                     "wrong-state": [(T_STATE, b"\x02")], "empty-state": [(T_STATE, b"")],
+                     # a State value that merely starts with the expected step (the decoder joins adjacent items of one type)
+                     "state4-then-another-byte": [(T_STATE, rope(b"\x04", be.arbitrary("m4extra", 1)))],
+                     "state-item-twice": [(T_STATE, b"\x04\x04")]}[m4]
         if m4 != "state4":
             # the accessory did not accept (or the reply is out of sequence): with the transport's filter and without it (BLE)
             flt = expected if ex.choice("m4_filter", ["transport-filter", "unfiltered"]) == "transport-filter" else None
@@ -224,7 +228,7 @@ def verify_full(M):
     return h
 
 
-M4S = ["state4", "state4+error", "state4+empty-error", "error-only", "wrong-state", "empty-state"]
+M4S = ["state4", "state4+error", "state4+empty-error", "error-only", "wrong-state", "empty-state", "state4-then-another-byte", "state-item-twice"]
 
 
 def two_exchanges(M):
@@ -256,6 +260,45 @@ def two_exchanges(M):
             return ex.observe("replay-rejected")
         ex.require(False, "an M2 recorded in an earlier exchange is rejected in the next one")
         return ex.observe("REPLAY-ACCEPTED")
+    return h
+
+
+def two_records(M):
+    """the accessory was reset and paired again: same identifier, new long-term key.  Each exchange is judged by the key of
+    the record it was started with"""
+    def h(ex):
+        be = hap.backend(ex, M.proto)
+        rec_a = hap.pairing_data()
+        rec_b = dict(rec_a, AccessoryLTPK=hap.LT_PUB["B"].hex())
+        # an exchange under the old record first (whatever a process-wide cache remembers comes from here)
+        gen = M.proto.get_session_keys(rec_a)
+        req, expected = gen.send(None)
+        acc = Accessory(be, eph="eA", lt="A")
+        pub, enc = acc.m2(dict(req)[T_PUBKEY])
+        try:
+            send(M, be, gen, [(T_STATE, b"\x02"), (T_PUBKEY, pub), (T_ENC, enc)], expected)
+            first = True
+        except Exception:
+            first = False
+        ex.require(first, "the accessory holding the key of the record is accepted")
+        signer = ex.choice("second_exchange_signed_with", ["new-key", "old-key"])
+        gen = M.proto.get_session_keys(rec_b)
+        req, expected = gen.send(None)
+        acc2 = Accessory(be, eph="eA2", lt="B" if signer == "new-key" else "A")
+        pub, enc = acc2.m2(dict(req)[T_PUBKEY])
+        try:
+            send(M, be, gen, [(T_STATE, b"\x02"), (T_PUBKEY, pub), (T_ENC, enc)], expected)
+            accepted = True
+        except StopIteration:
+            accepted = True
+        except Exception:
+            accepted = False
+        ex.tag(signer)
+        if signer == "new-key":
+            ex.require(accepted, "after re-pairing, the accessory holding the new record's key is accepted")
+        else:
+            ex.require(not accepted, "after re-pairing, a peer signing with the old record's key is rejected")
+        return ex.observe([first, accepted])
     return h
 
 
@@ -415,8 +458,10 @@ def install_ip(M):
         conn.pairing_data = hap.pairing_data()
         conn.hosts, conn.port, conn.connected_host = ["10.0.0.1"], 80, "10.0.0.1"
         conn._pair_verify_failed_hosts = set()
+        # left over from an earlier verified session on this object (the connection was lost and is being re-established)
+        conn.is_secure, conn.closed, conn.protocol = True, False, object()
         run = scripted_generator(M, be, accs)
-        state = {}
+        state = {"reported": []}
 
         class Transport:
             def set_protocol(self, p):
@@ -455,6 +500,7 @@ def install_ip(M):
         accs.append(acc)
 
         async def post_tlv(target, body, expected=None):
+            state["reported"].append((bool(conn.is_secure), bool(conn.is_connected)))
             d = dict(body)
             st = bytes(as_rope(d[T_STATE]).concrete()) if be.sym else bytes(d[T_STATE])
             if st == b"\x01":
@@ -476,6 +522,8 @@ def install_ip(M):
             M.ipc.InsecureHomeKitProtocol.__init__ = saved_init
         p = conn.protocol
         wkey, rkey = acc.key(b"Control-Salt", b"Control-Write-Encryption-Key"), acc.key(b"Control-Salt", b"Control-Read-Encryption-Key")
+        ex.require(len(state["reported"]) == 2 and not any(s or c for s, c in state["reported"]),
+                   "ip: while pair-verify is in flight the connection reports itself neither secure nor connected (a waiting request would go out in plaintext to an unverified peer)")
         ex.require(conn.is_secure is True and state.get("proto") is p, "ip: the secure protocol is installed on the transport")
         ex.require(p.c2a_counter == 0 and p.a2c_counter == 0, "ip: fresh keys start at counter 0")
         ex.require(eq(be, p.c2a_key, wkey), "ip: requests use Control-Write-Encryption-Key")
@@ -618,6 +666,8 @@ def build(tier, mutate=None):
              regions=["accepted", "rejected", "m4-rejected"]),
         Unit("verify/two-exchanges", two_exchanges(C), two_exchanges(R), bounds={"exchanges": 2, "replayed": "the first exchange's genuine M2"},
              regions=["replay-rejected"]),
+        Unit("verify/two-records-same-identifier", two_records(C), two_records(R), bounds={"records": "same AccessoryPairingID, long-term keys A then B"},
+             regions=["new-key", "old-key"]),
         Unit("verify/resume", verify_resume(C), verify_resume(R), split=True,
              bounds={"method": METHODS, "tag": TAGS, "new session id": "8 arbitrary bytes"}, regions=["resumed", "not-resumed"]),
         Unit("install/ble", install_ble(C), install_ble(R), bounds={"exchange": "honest"}),
